@@ -230,6 +230,13 @@ theorem negotiation_pack_needs_done (mode : AckMode) (stateless : Bool) (has : I
     (hp : sendsPack mode r noDone = true) : r.doneReceived = true ∨ (noDone = true ∧ r.common ≠ []) :=
   sendsPack_needs_done mode r noDone hp
 
+/-- The server-side want validation the model of a served transfer presupposes is present in the
+source (`determine_wants`: `if sha_result not in values: raise GitProtocolError`), as is the store
+check on haves (`find_common_revisions`: `if sha in self`).  Regenerated from /repo on every run:
+removing either check breaks this obligation. -/
+theorem validation_checks_in_source :
+    Gen.wantCheckedAgainstAdvertised = true ∧ Gen.haveCheckedAgainstStore = true := by decide
+
 /-! ## 7. Non-vacuity: a concrete history (root commit 2, child commit 5 sharing a subtree and
 carrying a gitlink, a tag 6 of the commit, a tag 7 of the tag) on which all hypotheses hold. -/
 
